@@ -9,7 +9,10 @@ ninputs×accepted` (`accepted`: 1 the implementation accepted, 0 rejected, 2 not
 plain LR loop does not terminate on this table and input).
 Reply: `V` verdict of the validator `Cert.check`; one `M k …` line per input from the LR driver model;
 `V fail sentence-rejected …` when a conflict-free table's parser rejected an input that the (sound)
-bounded recogniser derives from the start rule.
+bounded recogniser derives from the start rule; `V fail termination-certificate-fails state=… below=…
+lookahead=… loop-after=… top=… period=…` when a conflict-free table without precedence-resolved cells
+fails the termination certificate `Term.termCheckAdj` at a pair whose local run provably loops
+(`Term.findCycle`; `C01.cert_cycle_parse_diverges`); `C termination_…` counters otherwise.
 -/
 namespace GrmVerif.Drive.C01
 open GrmVerif GrmVerif.Drive GrmVerif.LR GrmVerif.Ref
@@ -56,6 +59,51 @@ def precResolved (G : Grammar) (A : Automaton) : Bool :=
     let cands := (A.closed s).filter (fun i => i.dot ≥ (G.rhs i.p).length && i.la.contains t)
     !cands.isEmpty && (A.edge s (.tok t)).isSome && !A.sr.any (fun c => c.1 == t && c.2.2 == s)))
 
+/-- fuel of the termination certificate: linear in the table, generous (the longest local run seen on
+a certified table of the generators is far below it) -/
+def termFuel (G : Grammar) (A : Automaton) : Nat := 4 * (A.nstates + G.nrules) + 40
+
+/-- `(lookahead, state, below)` of a failing local run and, if `Term.findCycle` finds one, the loop
+`(reductions before it, states of the top part that recurs, period)`. A run that only fails because it is long (no cycle within the
+search) is looked at again with 64 times the fuel. -/
+def termFailure (G : Grammar) (A : Automaton) : Option ((Nat × Nat × Option Nat) × Option (Nat × Nat × Nat)) × Bool :=
+  let cyc := fun (t : Nat × Nat × Option Nat) =>
+    Term.findCycle G A t.1 (4 * termFuel G A) (4 * termFuel G A) 0
+      (match t.2.2 with | some b => [t.2.1, b] | none => [t.2.1])
+  match Term.failAdj G A (termFuel G A) with
+  | none => (none, false)
+  | some t1 =>
+    match cyc t1 with
+    | some c => (some (t1, some c), false)
+    | none =>
+      match Term.failAdj G A (64 * termFuel G A) with
+      | none => (none, true)
+      | some t2 => (some (t2, cyc t2), false)
+
+/-- verdict lines and counter lines of the termination certificate. `strict`: the table is
+conflict-free and no cell was settled by precedence — then a pair whose local run provably cycles
+(`C01.cert_cycle_feed_diverges_partial`: `feed` never ends on a real stack) is a defect of the table;
+for other tables (Yacc-resolved conflicts may legitimately loop: known finding under C07) and for
+failures without a cycle witness it is only counted. -/
+def termVerdict (G : Grammar) (A : Automaton) (strict : Bool) : List String × List String :=
+  match termFailure G A with
+  | (none, false) => ([], ["C termination_certified 1"])
+  | (none, true) => ([], ["C termination_certified 1", "C termination_certified_with_64x_fuel 1"])
+  | (some ((la, s, below), cyc), _) =>
+    if !strict then
+      ([], ["C termination_not_certified_table_with_conflicts 1"] ++
+        (if cyc.isSome then ["C termination_cycle_table_with_conflicts 1"] else []))
+    else
+      let belowOk := match below with | some b => (Term.reachable A).contains b | none => true
+      let belowStr := match below with | some b => toString b | none => "none"
+      match cyc with
+      | some (pre, m, k) =>
+        if belowOk then
+          ([s!"V fail termination-certificate-fails state={s} below={belowStr} lookahead={la} loop-after={pre} top={m} period={k}"],
+            ["C termination_not_certified_conflict_free_table 1"])
+        else ([], ["C termination_not_certified_conflict_free_table 1", "C termination_cycle_below_unreachable_state 1"])
+      | none => ([], ["C termination_not_certified_conflict_free_table 1", "C termination_failure_without_cycle_witness 1"])
+
 def fuelFor (A : Automaton) (w : List Nat) : Nat := 400 * (w.length + 2)
 
 def handle (args : List Nat) : String :=
@@ -86,12 +134,8 @@ def handle (args : List Nat) : String :=
         let badLA := Cert.failingLA P.G P.A (An.nullable.contains ·) (An.first.contains ·)
         if badLA.isEmpty then [] else [s!"V fail certLA clauses={badLA}"]
     let vs := v1 ++ v3 ++ v2
-    -- termination certificate (premise of `C01.lr_terminates`): counted, not judged — a table with a
-    -- precedence-resolved conflict may legitimately fail it (known finding under C07)
-    let nTerm := 3 * (P.A.nstates + P.G.nrules) + 20
-    let term := if Term.termCheck P.G P.A nTerm then "C termination_certified 1"
-      else if conflictFree && !precResolved P.G P.A then "C termination_not_certified_conflict_free_table 1"
-      else "C termination_not_certified_table_with_conflicts 1"
-    "\n".intercalate ((if vs.isEmpty then ["V ok"] else vs) ++ ms ++ [term])
+    -- termination certificate over adjacent pairs (premise of `C01.lr_terminates`)
+    let term := termVerdict P.G P.A (conflictFree && !precResolved P.G P.A)
+    "\n".intercalate ((let vs := vs ++ term.1; if vs.isEmpty then ["V ok"] else vs) ++ ms ++ term.2)
 
 end GrmVerif.Drive.C01
